@@ -5,11 +5,13 @@ import (
 	"encoding/json"
 	"errors"
 	"fmt"
+	"strings"
 	"testing/synctest"
 	"time"
 
 	"github.com/rqlite/rqlite/v10/command/proto"
 	"github.com/rqlite/rqlite/v10/store"
+	"github.com/rqlite/rqlite/v10/verifx"
 	"verifsim/core"
 	"verifsim/node"
 	"verifsim/sim"
@@ -36,7 +38,7 @@ import (
 //     before the invocation.
 
 type c16Op struct {
-	Kind  string `json:"k"` // w wscan scan lin isolate partition oneway heal run jump stepdown crash restart
+	Kind  string `json:"k"` // w wscan park scan lin isolate partition oneway heal run jump stepdown crash restart
 	N     int    `json:"n,omitempty"`
 	M     int    `json:"m,omitempty"`
 	Group []int  `json:"g,omitempty"`
@@ -73,8 +75,12 @@ func c16Gen(r *core.Rand, tier string) any {
 	for i := 0; i < nops; i++ {
 		x := r.Intn(100)
 		switch {
-		case x < 10:
+		case x < 4:
 			sc.Ops = append(sc.Ops, c16Op{Kind: "w", N: r.Range(1, 3)})
+		case x < 10:
+			// a committed write is held back right before it is applied on the leader
+			// (N scheduler steps), linearizable reads are issued meanwhile
+			sc.Ops = append(sc.Ops, c16Op{Kind: "park", N: r.Range(3, 60), M: r.Range(1, 3), Req: r.Bool(0.4)})
 		case x < 30:
 			sc.Ops = append(sc.Ops, c16Op{Kind: "wscan", N: r.Range(1, 4), M: r.Range(5, 40)})
 		case x < 42:
@@ -138,6 +144,7 @@ type c16Lin struct {
 	node      int
 	req       bool
 	ackedAt   int
+	held      int  // writes that were committed but held back before being applied when the read was invoked
 	cutAt     bool // node could not reach a quorum of voters when the read was invoked
 	nvAcks    bool // ... but voters plus NON-voters it could reach would have made up that number
 	reachDesc string
@@ -164,6 +171,14 @@ type c16State struct {
 	down      []int
 	lins      []*c16Lin
 	reads     int
+
+	// holding a committed write back right before the leader applies it
+	parkID    string // raft id of the node whose FSM goroutine is to be parked
+	parkArmed bool
+	parked    bool
+	parkCh    chan struct{}
+	parkIdx   uint64
+	noteIdx   map[string]uint64 // raft id -> index of the entry fsmApply was last entered with
 }
 
 const c16Count = "SELECT COUNT(*) FROM t"
@@ -443,12 +458,17 @@ func (st *c16State) reach(n *node.Node) (voters, vReach, nvReach int) {
 	return
 }
 
-func (st *c16State) startLin(n *node.Node, viaReq bool) {
+func (st *c16State) startLin(n *node.Node, viaReq bool) { st.startLinHeld(n, viaReq, 0) }
+
+// startLinHeld: held = number of writes the harness knows to be COMMITTED on n
+// (its commit index covers them) although not yet applied and not yet
+// acknowledged; a linearizable read invoked now must reflect them as well.
+func (st *c16State) startLinHeld(n *node.Node, viaReq bool, held int) {
 	if !n.Up {
 		return
 	}
 	synctest.Wait()
-	lr := &c16Lin{node: n.Idx, req: viaReq, ackedAt: st.acked, cutAt: !opsQuorumReachable(st.s, n), connEpoch: st.connEpoch}
+	lr := &c16Lin{node: n.Idx, req: viaReq, ackedAt: st.acked, held: held, cutAt: !opsQuorumReachable(st.s, n), connEpoch: st.connEpoch}
 	if lr.cutAt {
 		voters, vReach, nvReach := st.reach(n)
 		lr.nvAcks = voters > 0 && vReach+nvReach >= voters/2+1
@@ -480,6 +500,9 @@ func (st *c16State) judgeLin(lr *c16Lin) {
 	c := st.c
 	c.Log.Add("%d lin n%d req=%v acked-at-invoke=%d cut-at-invoke=%v -> val=%d err=%v", st.s.StepN, lr.node, lr.req, lr.ackedAt, lr.cutAt, lr.val, lr.err)
 	if lr.err != nil {
+		if lr.held > 0 {
+			c.Probe("lin_failed_invoked_while_committed_write_unapplied")
+		}
 		if lr.cutAt {
 			c.Probe("lin_failed_cut_off")
 		} else {
@@ -501,6 +524,13 @@ func (st *c16State) judgeLin(lr *c16Lin) {
 		c.Violate(class, "linearizable read on n%d succeeded (value %d) although the node could not exchange messages with a quorum of voters from before its invocation until its return (%s)", lr.node, lr.val, lr.reachDesc)
 		return
 	}
+	if lr.held > 0 && lr.val < int64(lr.ackedAt+lr.held) {
+		c.Violate("lin-missed-committed-write", "linearizable read on n%d returned %d rows, but %d writes had been acknowledged and %d more were committed on that node (commit index covered them; the FSM had not applied them yet) before it was invoked", lr.node, lr.val, lr.ackedAt, lr.held)
+		return
+	}
+	if lr.held > 0 {
+		c.Probe("lin_ok_invoked_while_committed_write_unapplied")
+	}
 	if lr.val < int64(lr.ackedAt) {
 		c.Violate("lin-missed-acked-write", "linearizable read on n%d returned %d rows, but %d writes had been acknowledged before it was invoked", lr.node, lr.val, lr.ackedAt)
 		return
@@ -512,6 +542,88 @@ func (st *c16State) judgeLin(lr *c16Lin) {
 	if lr.ackedAt > 0 {
 		c.Probe("lin_ok_reflecting_acked_writes")
 	}
+}
+
+// ---------------------------------------------------------------- committed but not yet applied
+
+// hit parks the FSM goroutine of the chosen node right before it applies the
+// next command entry (no lock is held at that point; blocking on a channel is
+// durable for the bubble).
+func (st *c16State) hit(point string) error {
+	if st.parkArmed && point == "store.fsmApply.before/"+st.parkID {
+		st.parkArmed = false
+		st.parkIdx = st.noteIdx[st.parkID]
+		st.parked = true
+		<-st.parkCh
+	}
+	return nil
+}
+
+func (st *c16State) note(point string, v int64) {
+	if strings.HasPrefix(point, "store.fsm.apply ") {
+		if f := strings.SplitN(point, " ", 3); len(f) >= 2 {
+			st.noteIdx[f[1]] = uint64(v)
+		}
+	}
+}
+
+func (st *c16State) unpark() {
+	st.parkArmed = false
+	if st.parked {
+		st.parked = false
+		close(st.parkCh)
+	}
+}
+
+// park: a strong read in this term first (so that linearizable reads take the
+// read-index path), then one write whose log entry is committed but held back
+// right before the leader's FSM applies it; linearizable reads (and the local
+// read matrix, for contrast) are issued meanwhile; then the entry is released.
+func (st *c16State) park(op c16Op) {
+	c, s := st.c, st.s
+	l := st.writableLeader()
+	if l == nil || s.PendingTasks() > 0 {
+		s.Drain(20 * time.Second)
+		if l = st.writableLeader(); l == nil || s.PendingTasks() > 0 {
+			return
+		}
+	}
+	var serr error
+	s.Do("strong-read", 20*time.Second, func() {
+		_, _, _, serr = l.Store.Query(context.Background(), opsQueryReq(proto.ConsistencyLevel_STRONG, c16Count, 0, false, 0))
+	})
+	if serr != nil || !l.Store.IsLeader() {
+		return
+	}
+	st.parkID, st.parkCh, st.parkArmed, st.parked = l.ID, make(chan struct{}), true, false
+	defer st.unpark()
+	st.startWrite(l)
+	for i := 0; i < 400 && !st.parked && s.PendingTasks() > 0 && !s.Capped; i++ {
+		s.Step()
+		synctest.Wait()
+	}
+	if !st.parked {
+		c.Probe("park_write_not_committed")
+		return
+	}
+	rs := l.Store.VerifReadState()
+	if !(rs.CommitIndex >= st.parkIdx && rs.FSMIndex < st.parkIdx) {
+		c.Probe("park_unexpected_state")
+		return
+	}
+	c.Fault("apply-held-back")
+	c.Log.Add("%d n%d: entry %d committed (commit index %d) and held back before apply (fsm index %d)", s.StepN, l.Idx, st.parkIdx, rs.CommitIndex, rs.FSMIndex)
+	for k := 0; k < op.M; k++ {
+		st.startLinHeld(l, op.Req != (k%2 == 1), 1)
+	}
+	st.scan(op.N)
+	if st.rng.Bool(0.3) {
+		// sometimes hold it beyond the reads' own timeouts: they must then fail, not return early
+		s.RunFor(time.Duration(1+st.rng.Intn(4)) * time.Second)
+	}
+	c.Log.Add("%d n%d: entry %d released", s.StepN, l.Idx, st.parkIdx)
+	st.unpark()
+	s.Drain(30 * time.Second)
 }
 
 // ---------------------------------------------------------------- run
@@ -557,7 +669,10 @@ func c16Run(c *core.Ctx, raw json.RawMessage) {
 	if sc.Nodes < 2 {
 		sc.Nodes = 2
 	}
-	st := &c16State{c: c, s: s, sc: &sc, rng: core.NewRand(core.Mix(sc.Seed, 16)), voter: map[int]bool{}, isoSince: map[int]time.Time{}, isoLeader: map[int]bool{}}
+	st := &c16State{c: c, s: s, sc: &sc, rng: core.NewRand(core.Mix(sc.Seed, 16)), voter: map[int]bool{}, isoSince: map[int]time.Time{}, isoLeader: map[int]bool{}, noteIdx: map[string]uint64{}}
+	verifx.InstallHooks(st.hit, nil, st.note, nil, nil)
+	defer verifx.ResetHooks()
+	defer st.unpark()
 	if err := s.Boot(sc.Nodes, sc.Knobs, func(i int) bool { return !(sc.NonVoter && i == sc.Nodes) }); err != nil {
 		c.Discard("boot-failed: " + err.Error())
 		return
@@ -666,6 +781,8 @@ func c16Run(c *core.Ctx, raw json.RawMessage) {
 			simclock.Set(time.Now())
 			c.Fault("clock-jump")
 			c.Log.Add("%d jump %dms", s.StepN, op.Ms)
+		case "park":
+			st.park(op)
 		case "stepdown":
 			if l := st.writableLeader(); l != nil {
 				c.Fault("stepdown")
